@@ -25,6 +25,10 @@ func runC09(c *eng.Ctx) {
 	ruleSwapOnlyAfterASuccessfulPass(c)
 	c.Rule("R09.9", "K5")
 	ruleReadPathSkipsDeletedSegments(c)
+	c.Rule("R01.8", "K5")
+	ruleRecoveredBookkeepingPairs(c)
+	c.Rule("R09.7", "K1")
+	ruleCleanAlwaysRunsAPass(c)
 	c.Rule("R01.9", "K5")
 	ruleReaderStartsInsideItsSegment(c)
 	p := c.P
